@@ -37,6 +37,7 @@ type Row struct {
 	Untrusted bool               `json:"untrusted"`
 	Masks     map[string][][]int `json:"masks"`
 	Sites     []string           `json:"sites"`
+	SiteMake  map[string]string  `json:"site_make"`
 	Index     int                `json:"-"`
 }
 
